@@ -13,7 +13,7 @@ from inspect import Parameter
 import numpy
 
 from .core import (KGChannel, KGChannelDir, KGLambda, KGSym, KlongException,
-                   bknp, is_dict, is_empty, is_list, kg_read_array, kg_write,
+                   bknp, is_dict, is_empty, is_list, kg_read_data, kg_write,
                    reserved_fn_args, reserved_fn_symbol_map, safe_eq, safe_inspect)
 
 
@@ -755,7 +755,7 @@ def eval_sys_read(klong):
         f.at_eof = True
         return None
     else:
-        i,a = kg_read_array(r, 0, klong._backend, module=klong.current_module(), read_neg=True)
+        i,a = kg_read_data(r, 0, klong._backend, module=klong.current_module(), read_neg=True)
         f.raw.seek(k+i,0)
         return a
 
@@ -804,7 +804,7 @@ def eval_sys_read_string(klong, x):
         forms.
 
     """
-    _, a = kg_read_array(x, 0, klong._backend, module=klong.current_module(), read_neg=True)
+    _, a = kg_read_data(x, 0, klong._backend, module=klong.current_module(), read_neg=True)
     return a
 
 
